@@ -41,6 +41,7 @@ type line struct {
 	// pss
 	Em     []int `json:"em"`
 	EmBits int   `json:"embits"`
+	SigInRange bool `json:"sig_in_range"` // the signature representative is below the modulus (RFC 8017 5.2.2 step 1)
 	HLen   int   `json:"hlen"`
 	SLen   int   `json:"slen"`
 	MHash  []int `json:"mhash"`
@@ -177,7 +178,9 @@ func main() {
 			// every kind of altered blind signature
 			N := key.N
 			vals := map[string][]*big.Int{"zero": {big.NewInt(0)}, "one": {big.NewInt(1)}, "N-1": {new(big.Int).Sub(N, big.NewInt(1))},
-				"N": {N}, "N+1": {new(big.Int).Add(N, big.NewInt(1))}}
+				"N": {N}, "N+1": {new(big.Int).Add(N, big.NewInt(1))},
+				// the honest blind signature plus the modulus: another byte string, the same residue (fits only for some keys / signatures)
+				"honest+N": {new(big.Int).Add(new(big.Int).SetBytes(bs), N)}}
 			nflip := 64
 			if *thorough {
 				nflip = 8 * kLen
@@ -336,12 +339,25 @@ func main() {
 				hp := sha512.Sum384(append(append(make([]byte, 8), mh[:]...), obsSalt...))
 				l := line{Ev: "pss", Variant: fmt.Sprintf("sLen=%d", sLen), Bits: bits, Site: fault, Em: ints(em), EmBits: emBits, HLen: hLen, SLen: sLen, Auto: sLen == 0,
 					MHash: ints(mh[:]), DbMask: ints(mask), Salt: ints(obsSalt), HPrime: ints(hp[:]),
-					NHex: key.N.Text(16), SigHex: vlib.Hex(sig), MsgHex: vlib.Hex(msg)}
+					NHex: key.N.Text(16), SigHex: vlib.Hex(sig), MsgHex: vlib.Hex(msg), SigInRange: true}
 				if safe(func() { l.Lib = ver.Verify(msg, sig) == nil }) {
 					l.Panics++
 				}
 				l.Std = rsa.VerifyPSS(&key.PublicKey, crypto.SHA384, mh[:], sig, &rsa.PSSOptions{SaltLength: sLen, Hash: crypto.SHA384}) == nil
 				o.Emit(fix(l))
+				// the same residue spelled as s + N: not a signature representative (RFC 8017 5.2.2: 0 <= s < n), whatever EM it gives
+				if sn := new(big.Int).Add(s, key.N); fault == "none" && sn.BitLen() <= 8*kLen {
+					l2 := l
+					l2.Site = "sig+N"
+					sig2 := sn.FillBytes(make([]byte, kLen))
+					l2.SigHex = vlib.Hex(sig2)
+					l2.Lib, l2.Panics, l2.SigInRange = false, 0, false
+					if safe(func() { l2.Lib = ver.Verify(msg, sig2) == nil }) {
+						l2.Panics++
+					}
+					l2.Std = rsa.VerifyPSS(&key.PublicKey, crypto.SHA384, mh[:], sig2, &rsa.PSSOptions{SaltLength: sLen, Hash: crypto.SHA384}) == nil
+					o.Emit(fix(l2))
+				}
 			}
 		}
 	}
